@@ -50,14 +50,18 @@ theorem built_of_data {G : Ghost} {s s2 s8 : St} {ps : PartS} (order : List PFil
 
 /-- `memPart.mustFlush`: at every prefix the invariant holds (for some ghost); at the end the part is complete. -/
 theorem flushPart_along {G : Ghost} {s : St} (h : Inv G s) (id : Nat) (bs : List Nat)
-    (hfresh : id ∉ G.parts.map (·.id)) :
-    Along (fun s => ∃ G', Inv G' s) s (flushPart id bs) ∧
+    (hfresh : id ∉ G.parts.map (·.id)) (Q : Ghost → Prop)
+    (hq : ∀ ps : PartS, ps.id = id → ps.bat = bs → ps.ready = false → ps.durable = false → ps.dying = false →
+      Q { G with parts := G.parts ++ [ps] } ∧ Q (({ G with parts := G.parts ++ [ps] } : Ghost).ready ps.id) ∧
+        Q (G.withPart ps)) :
+    Along (InvQ Q) s (flushPart id bs) ∧
     Inv (G.withPart ⟨id, bs, flushIno s.next, false, false, false⟩) (run s (flushPart id bs)) := by
   obtain ⟨ps, hps⟩ : ∃ ps : PartS, ps = ⟨id, bs, flushIno s.next, false, false, false⟩ := ⟨_, rfl⟩
   have hid : ps.id = id := by rw [hps]
   have hbat : ps.bat = bs := by rw [hps]
   have hino : ps.ino = flushIno s.next := by rw [hps]
   rw [← hps]
+  obtain ⟨q0, q1, q2⟩ := hq ps hid hbat (by rw [hps]) (by rw [hps]) (by rw [hps])
   have h1 : Inv { G with parts := G.parts ++ [ps] } s :=
     inv_addPart h ps (by rw [hid]; exact hfresh) (by rw [hps]) (by rw [hps]) (by rw [hps])
   obtain ⟨hA1, hvd, hdd, hp2, hn2, hk2⟩ := mkdir_part h1 id
@@ -84,7 +88,7 @@ theorem flushPart_along {G : Ghost} {s : St} (h : Inv G s) (id : Nat) (bs : List
       hp8 (by rw [hbat]; exact hst8)
     · rw [hn8, hn2, hino]; rfl
     · rw [hino]; rfl
-  obtain ⟨hA3, hfin⟩ := seal_part hB
+  obtain ⟨hA3, hfin⟩ := seal_part hB Q q0 q1 q2
   rw [hid, hbat] at hA3 hfin
   have hsplit : flushPart id bs = mkdirSync [.part id] ++
       (flushOrder.flatMap (fun f => writeSync (pfile id f) (dataContent f bs)) ++
@@ -92,9 +96,9 @@ theorem flushPart_along {G : Ghost} {s : St} (h : Inv G s) (id : Nat) (bs : List
     simp [flushPart, flushOrder, List.append_assoc]
   rw [hsplit]
   constructor
-  · refine along_append (P := fun s => ∃ G', Inv G' s) (along_mono (fun _ hh => ⟨_, hh⟩) hA1) ?_
+  · refine along_append (P := InvQ Q) (along_mono (fun _ hh => ⟨_, hh, q0⟩) hA1) ?_
     rw [← hs2]
-    refine along_append (P := fun s => ∃ G', Inv G' s) (along_mono (fun _ hh => ⟨_, hh⟩) hA2) ?_
+    refine along_append (P := InvQ Q) (along_mono (fun _ hh => ⟨_, hh, q0⟩) hA2) ?_
     rw [← hs8]
     exact hA3
   · rw [run_append, ← hs2, run_append, ← hs8]
@@ -104,14 +108,18 @@ theorem flushPart_along {G : Ghost} {s : St} (h : Inv G s) (id : Nat) (bs : List
 
 /-- `mergeParts`' output: the block writer's files, then `tag.type` and `metadata.json`. -/
 theorem mergeOut_along {G : Ghost} {s : St} (h : Inv G s) (id : Nat) (bs : List Nat)
-    (hfresh : id ∉ G.parts.map (·.id)) :
-    Along (fun s => ∃ G', Inv G' s) s (mergeOut id bs) ∧
+    (hfresh : id ∉ G.parts.map (·.id)) (Q : Ghost → Prop)
+    (hq : ∀ ps : PartS, ps.id = id → ps.bat = bs → ps.ready = false → ps.durable = false → ps.dying = false →
+      Q { G with parts := G.parts ++ [ps] } ∧ Q (({ G with parts := G.parts ++ [ps] } : Ghost).ready ps.id) ∧
+        Q (G.withPart ps)) :
+    Along (InvQ Q) s (mergeOut id bs) ∧
     Inv (G.withPart ⟨id, bs, mergeIno s.next, false, false, false⟩) (run s (mergeOut id bs)) := by
   obtain ⟨ps, hps⟩ : ∃ ps : PartS, ps = ⟨id, bs, mergeIno s.next, false, false, false⟩ := ⟨_, rfl⟩
   have hid : ps.id = id := by rw [hps]
   have hbat : ps.bat = bs := by rw [hps]
   have hino : ps.ino = mergeIno s.next := by rw [hps]
   rw [← hps]
+  obtain ⟨q0, q1, q2⟩ := hq ps hid hbat (by rw [hps]) (by rw [hps]) (by rw [hps])
   have h1 : Inv { G with parts := G.parts ++ [ps] } s :=
     inv_addPart h ps (by rw [hid]; exact hfresh) (by rw [hps]) (by rw [hps]) (by rw [hps])
   obtain ⟨hA1, hvd, hdd, hp2, hn2, hk2⟩ := mkdir_part h1 id
@@ -158,7 +166,7 @@ theorem mergeOut_along {G : Ghost} {s : St} (h : Inv G s) (id : Nat) (bs : List 
       (by rw [hp8]; exact hp5) (by rw [hbat]; exact hst8)
     · rw [hn8, hn5, hn2, hino]; rfl
     · rw [hino]; rfl
-  obtain ⟨hA4, hfin⟩ := seal_part hB
+  obtain ⟨hA4, hfin⟩ := seal_part hB Q q0 q1 q2
   rw [hid, hbat] at hA4 hfin
   have hsplit : mergeOut id bs = mkdirSync [.part id] ++
       (mergeOrder.map (fun f => Step.create (pfile id f)) ++
@@ -168,11 +176,11 @@ theorem mergeOut_along {G : Ghost} {s : St} (h : Inv G s) (id : Nat) (bs : List 
     simp [mergeOut, mergeOrder, List.append_assoc]
   rw [hsplit]
   constructor
-  · refine along_append (P := fun s => ∃ G', Inv G' s) (along_mono (fun _ hh => ⟨_, hh⟩) hA1) ?_
+  · refine along_append (P := InvQ Q) (along_mono (fun _ hh => ⟨_, hh, q0⟩) hA1) ?_
     rw [← hs2]
-    refine along_append (P := fun s => ∃ G', Inv G' s) (along_mono (fun _ hh => ⟨_, hh⟩) hA2) ?_
+    refine along_append (P := InvQ Q) (along_mono (fun _ hh => ⟨_, hh, q0⟩) hA2) ?_
     rw [← hs5]
-    refine along_append (P := fun s => ∃ G', Inv G' s) (along_mono (fun _ hh => ⟨_, hh⟩) hA3) ?_
+    refine along_append (P := InvQ Q) (along_mono (fun _ hh => ⟨_, hh, q0⟩) hA3) ?_
     rw [← hs8]
     exact hA4
   · rw [run_append, ← hs2, run_append, ← hs5, run_append, ← hs8]
